@@ -6,19 +6,23 @@
 (* header is refused at once (connection closed although nothing else arrives, no   *)
 (* buffer of the announced size); a stream that ends or stalls inside a packet      *)
 (* closes the connection without delivering a shortened packet.                     *)
-EXTENDS Integers, Sequences, FiniteSets, TLC, Json, IOUtils, Wire
+EXTENDS Integers, Sequences, FiniteSets, TLC, Json, IOUtils, Wire, Proxy
 
 Tr == ndJsonDeserialize(IOEnv.TRACE_FILE)
 N == Len(Tr)
 RealBodyLen(h) == IF Len4Small(SubSeq(h, 9, 12)) THEN Len4Val(SubSeq(h, 9, 12)) ELSE -1
 F == INSTANCE FramingFn WITH HL <- 12, BodyLen <- RealBodyLen
+\* proxy mode (SetUseProxy): the reader as the code has it - outside the listed properties, so a disagreement between
+\* the real server and FramingProxy!ParseProxy is reported as a divergence of the model ("DIV"), never as a violation
+PF == INSTANCE FramingProxy WITH HL <- 12, BodyLen <- RealBodyLen, LineOK <- ProxyLineOK,
+         stream <- <<>>, net <- <<>>, buf <- <<>>, phase <- "line", curh <- <<>>, delivered <- <<>>, st <- "running"
 
 VARIABLES l, sc, cur, invs, cnt
 vars == << l, sc, cur, invs, cnt >>
 Tags(conds) == { c[2] : c \in { x \in conds : x[1] } }
 
 RECURSIVE Cat(_,_)
-Cat(pk, i) == IF i > Len(pk) THEN <<>> ELSE pk[i].h \o pk[i].b \o Cat(pk, i + 1)
+Cat(pk, i) == IF i > Len(pk) THEN <<>> ELSE pk[i].pre \o pk[i].h \o pk[i].b \o Cat(pk, i + 1)
 StreamOf(e) == LET all == Cat(e.pk, 1) IN SubSeq(all, 1, e.n)
 
 NoStream == [n |-> -1]
@@ -26,18 +30,19 @@ SameAs(iv, p) == LET h == DecHeader(p.h).v IN
    /\ iv.sid = h.sid /\ iv.seq = h.seq /\ iv.ty = h.ty /\ iv.maj = h.maj /\ iv.min = h.min /\ iv.fl = h.fl
    /\ iv.b = p.b                      \* stream scenarios carry the clear flag: the body travels verbatim
 
+IsProxy == "proxy" \in DOMAIN cur /\ cur.proxy
 Judge(e) ==
-   LET P == F!Parse(StreamOf(cur))
+   LET P == IF IsProxy THEN PF!ParseProxy(StreamOf(cur)) ELSE F!Parse(StreamOf(cur))
        same == Len(invs) = Len(P.del) /\ \A i \in 1..Len(invs) : SameAs(invs[i], P.del[i])
    IN Tags({ << ~same, "C05" >>,
-             << P.st = "refused" /\ ~e.closed, "C05" >>,
-             << P.st = "refused" /\ e.blocked, "C05" >>,
+             << P.st \in {"refused", "badline"} /\ ~e.closed, "C05" >>,
+             << P.st \in {"refused", "badline"} /\ e.blocked, "C05" >>,
              << P.st = "refused" /\ e.alloc > 1048576 + 4 * cur.n, "C05" >>,
              << P.st = "failed" /\ cur.end \in {"eof", "fire"} /\ ~e.closed, "C05" >>,
              << P.st = "clean" /\ cur.end = "eof" /\ ~e.closed, "C05" >>,
              << P.st \in {"clean", "failed"} /\ cur.end = "idle" /\ e.closed, "C05" >> })
 
-Init == l = 1 /\ sc = "" /\ cur = NoStream /\ invs = <<>> /\ cnt = [streams |-> 0, packets |-> 0, cut |-> 0, refused |-> 0, failed |-> 0]
+Init == l = 1 /\ sc = "" /\ cur = NoStream /\ invs = <<>> /\ cnt = [streams |-> 0, packets |-> 0, cut |-> 0, refused |-> 0, failed |-> 0, proxy |-> 0, badline |-> 0]
 Next ==
    /\ l <= N /\ l' = l + 1
    /\ LET e == Tr[l] IN
@@ -45,10 +50,13 @@ Next ==
         [] e.e = "stream" -> cur' = e /\ invs' = <<>> /\ UNCHANGED << sc, cnt >>
         [] e.e = "inv" /\ cur.n >= 0 -> invs' = Append(invs, e) /\ UNCHANGED << sc, cur, cnt >>
         [] e.e = "send" /\ cur.n >= 0 ->
-             /\ LET t == Judge(e) IN IF t = {} THEN TRUE ELSE PrintT(<< "PV", t, sc, l, "stream" >>)
-             /\ LET P == F!Parse(StreamOf(cur)) IN
+             /\ LET t == Judge(e) IN IF t = {} THEN TRUE
+                                     ELSE IF IsProxy THEN PrintT(<< "DIV", sc, l, "proxy-mode stream differs from FramingProxy!ParseProxy" >>)
+                                     ELSE PrintT(<< "PV", t, sc, l, "stream" >>)
+             /\ LET P == IF IsProxy THEN PF!ParseProxy(StreamOf(cur)) ELSE F!Parse(StreamOf(cur)) IN
                 cnt' = [cnt EXCEPT !.streams = @ + 1, !.packets = @ + Len(invs), !.cut = @ + Len(cur.cuts),
-                                   !.refused = IF P.st = "refused" THEN @ + 1 ELSE @, !.failed = IF P.st = "failed" THEN @ + 1 ELSE @]
+                                   !.refused = IF P.st = "refused" THEN @ + 1 ELSE @, !.failed = IF P.st = "failed" THEN @ + 1 ELSE @,
+                                   !.proxy = IF IsProxy THEN @ + 1 ELSE @, !.badline = IF P.st = "badline" THEN @ + 1 ELSE @]
              /\ UNCHANGED << sc, cur, invs >>
         [] OTHER -> UNCHANGED << sc, cur, invs, cnt >>
 Spec == Init /\ [][Next]_vars
